@@ -20,11 +20,14 @@ def _norm(node: ast.AST) -> str:
     return ast.unparse(node).replace(" ", "")
 
 
-def _main_loop(fn: ast.FunctionDef) -> ast.For:
-    for st in fn.body:
-        if isinstance(st, ast.For) and "iter_idx" in ast.unparse(st.target):
-            return st
-    raise Untranslatable("the `for data, iter_idx in …` loop of training_loop was not found")
+def _main_loop(fn: ast.FunctionDef, need_transparent: bool = True) -> ast.For:
+    """the loop of `training_loop` with the `self._method(…)` calls of the Engine class inlined at their call sites"""
+    from .c16_inline import class_methods, inlined_main_loop
+
+    loop = inlined_main_loop(fn, class_methods(parse_file(REPO / E)))
+    if need_transparent and loop.c16_opaque:
+        raise Untranslatable(f"self-call(s) {loop.c16_opaque} in the loop body could not be inlined")
+    return loop
 
 
 def classify_guard(test: ast.AST) -> str | None:
@@ -89,7 +92,12 @@ def loop_events(loop: ast.For) -> list[tuple[str, list[str]]]:
                 if st.orelse and any(has_event(s) for s in st.orelse):
                     raise Untranslatable("modelled statement in an else branch")
             elif isinstance(st, ast.Try):
+                before = len(out)
                 walk(st.body, guards)
+                # position relative to try/except is semantics (OOM recovery / kill path see whatever ran inside the try):
+                # the model has only `_do_iteration` there
+                if any(e != ".backward" for e, _ in out[before:]):
+                    raise Untranslatable("gradient / optimiser statement inside the try block of `_do_iteration`")
                 # handlers (OOM recovery, kill path) are not part of a completed iteration
                 if any(has_event(s) for s in st.orelse + st.finalbody):
                     raise Untranslatable("modelled statement in try-else / finally")
